@@ -13,6 +13,10 @@ pub struct Cfg {
     pub none_mod: u32,
     pub post_mod: u32,
     pub default_status: u8,
+    /// cross-shard differential mode (C10): the post-processing hook is group dependent and
+    /// distance results are only recorded, to be compared between shard counts
+    #[serde(default)]
+    pub group_hook: bool,
 }
 
 /// How the model decides whether an operation's callbacks failed. The model never
